@@ -7,7 +7,8 @@ at that position by a non-negated atom of the query. For a query made of a singl
 exactly the successive leftmost non-overlapping occurrences, and for a single regular expression they cover exactly
 the bytes of the engine's non-empty matches (newline bytes excluded in line mode).
 -/
-import ZoektModel.C02.Lemmas6
+import ZoektModel.C02.Lemmas8
+import ZoektModel.Generated.C02Consts
 namespace ZoektModel.C02
 open ZoektModel ZoektModel.C03
 
@@ -66,25 +67,6 @@ theorem collect_only_visited (atoms : List Atom) (c : Cand) (hc : c ∈ collect 
   refine ⟨a, ha, ?_⟩
   simp only [Atom.visited, Bool.and_eq_true, Bool.not_eq_true', Bool.or_eq_false_iff, beq_eq_false_iff_ne] at hv
   exact ⟨hv.1, hv.2.1.1, hv.2.1.2, hv.2.2, hca⟩
-
-theorem orderedDisjoint_of_pairwise (l : List Cand)
-    (h : l.Pairwise (fun a b => a.off + a.sz ≤ b.off)) : orderedDisjoint (candsAsRanges l) = true := by
-  induction l with
-  | nil => rfl
-  | cons a t ih =>
-    cases t with
-    | nil => rfl
-    | cons b r =>
-      rw [List.pairwise_cons] at h
-      have hab := h.1 b (by simp)
-      have := ih h.2
-      simp only [candsAsRanges, List.map_cons, orderedDisjoint, RRange.stop] at this ⊢
-      rw [this]
-      simp only [Bool.and_true, Bool.and_eq_true, decide_eq_true_eq, Bool.or_eq_true, beq_iff_eq]
-      refine ⟨decide_eq_true hab, ?_⟩
-      by_cases h0 : a.off < b.off
-      · exact Or.inl h0
-      · exact Or.inr ⟨by omega, by omega⟩
 
 /-- **C02 as evaluated by the driver on the implementation's output of `gatherMatches`** -/
 theorem C02_checkGather (name : Bytes) (atoms : List Atom) :
@@ -325,6 +307,114 @@ def fourByteRun : Bytes := (List.replicate 76 [0xF0, 0x9F, 0x98, 0x80]).flatten 
 theorem walk_needs_four_bytes_per_rune :
     advance 76 (fourByteRun.take (readLen 3)) = 300 ∧ advance 76 fourByteRun = 304 := by
   set_option maxRecDepth 100000 in decide
+
+/-! ## composition: the executable statement `checkP` on the reporting pipeline -/
+
+/-- **C02 end to end, chunk mode, general clauses**: for every document, name, context size and every collection of
+    in-bounds atom matches, the ranges of the chunk matches the search reports (`gatherMatches → fillChunkMatches`) lie
+    inside the content (or name), are ordered and non-overlapping within and across chunks, and each is a match of a
+    positive atom (or the whole-name fallback when no atom contributes) — the executable statement the driver evaluates. -/
+theorem C02_search_chunks (data name : Bytes) (ctx : Nat) (cands : List Cand)
+    (hb : ∀ c ∈ cands, c.off + c.sz ≤ (if c.fileName then name.length else data.length)) :
+    checkP data name false .multi cands (rangesOfChunks (reportChunks data name ctx cands)) = true :=
+  C02_search_chunks' data name ctx cands hb
+
+/-- **C02 end to end, line mode, general clauses**: the search reports line matches (no panic) whose fragments lie
+    inside the content (or name), are ordered and non-overlapping within and across lines, and each of which is a maximal
+    newline-free piece of a match of a positive atom (`gatherMatches → breakMatchesOnNewlines → fillContentMatches`). -/
+theorem C02_search_lines (data name : Bytes) (ctx : Nat) (cands : List Cand)
+    (hb : ∀ c ∈ cands, c.off + c.sz ≤ (if c.fileName then name.length else data.length)) :
+    ∃ lms, reportLines data name ctx cands = some lms ∧
+      checkP data name true .multi cands (rangesOfLines lms) = true :=
+  C02_search_lines' data name ctx cands hb
+
+/-- **C02 end to end, chunk mode, single content substring**: with the atom's candidates being all occurrences of the
+    pattern (in any order), the reported chunk ranges satisfy the whole statement, including: they are exactly the
+    successive leftmost non-overlapping occurrences. -/
+theorem C02_search_chunks_substring (data name : Bytes) (ctx : Nat) (pat : Bytes) (hp : pat ≠ []) (cands : List Cand)
+    (hc : cands.Perm (allOccurrences pat data)) (hne : occFrom pat data 0 ≠ []) :
+    checkP data name false (.substr pat) cands (rangesOfChunks (reportChunks data name ctx cands)) = true := by
+  have hb := allOccurrences_inBounds pat data name cands hc
+  rw [checkP_split, C02_search_chunks' data name ctx cands hb, Bool.true_and]
+  obtain ⟨sel, h1, _, _, _, h5⟩ := reportChunks_flat data name ctx cands hb
+  have hg := gather_single_substring name data pat hp cands hc hne
+  simp only [Bool.or_eq_true, beq_iff_eq]
+  right
+  rw [h1]
+  have : (candsAsRanges sel).filter (fun r => !r.fileName) = candsAsRanges (sel.filter (fun c => !c.fileName)) := by
+    simp only [candsAsRanges, List.filter_map]
+    rfl
+  rw [this, h5, hg]
+  simp only [expectedSingle, Bool.false_eq_true, if_false, candsAsRanges, List.filter_map, List.map_map]
+  have : (List.filter ((fun c : Cand => !c.fileName) ∘ fun o => ({ fileName := false, off := o, sz := pat.length } : Cand))
+      (leftmostOcc pat data 0 0)) = leftmostOcc pat data 0 0 := by
+    rw [List.filter_eq_self]; intro o _; rfl
+  rw [this]
+  rfl
+
+
+
+/-- **C02 end to end, line mode, single content substring**: the fragments reported are exactly the successive leftmost
+    non-overlapping occurrences of the pattern, cut at newline bytes. -/
+theorem C02_search_lines_substring (data name : Bytes) (ctx : Nat) (pat : Bytes) (hp : pat ≠ []) (cands : List Cand)
+    (hc : cands.Perm (allOccurrences pat data)) (hne : occFrom pat data 0 ≠ []) :
+    ∃ lms, reportLines data name ctx cands = some lms ∧
+      checkP data name true (.substr pat) cands (rangesOfLines lms) = true := by
+  have hb := allOccurrences_inBounds pat data name cands hc
+  have g := gathered_of_gather data name cands hb
+  obtain ⟨lms, h1, h2⟩ := C02_search_lines' data name ctx cands hb
+  refine ⟨lms, h1, ?_⟩
+  rw [checkP_split, h2, Bool.true_and]
+  obtain ⟨lms', sel, h1', h3, h4⟩ := reportLines_flat data name ctx cands hb
+  have hlms : lms' = lms := by rw [h1] at h1'; exact (Option.some.inj h1').symm
+  subst hlms
+  have hg := gather_single_substring name data pat hp cands hc hne
+  have hcontent : (gatherCands name cands).filter (fun c => !c.fileName) = gatherCands name cands := by
+    rw [hg, List.filter_eq_self]; intro c hcm
+    simp only [List.mem_map] at hcm
+    obtain ⟨o, _, rfl⟩ := hcm; rfl
+  have hnonempty : gatherCands name cands ≠ [] := gatherCands_ne_nil name cands
+  rcases h4 with ⟨h5, _, _⟩ | ⟨rfl, hfalse⟩
+  · rw [hcontent] at h5; exact absurd h5 hnonempty
+  · simp only [Bool.or_eq_true, beq_iff_eq]
+    right
+    rw [h3]
+    have : (candsAsRanges (breakMatchesOnNewlines data ((gatherCands name cands).filter (fun c => !c.fileName)))).filter
+        (fun r => !r.fileName) =
+        candsAsRanges (breakMatchesOnNewlines data ((gatherCands name cands).filter (fun c => !c.fileName))) := by
+      rw [List.filter_eq_self]
+      intro r hr
+      simp only [candsAsRanges, List.mem_map] at hr
+      obtain ⟨c, hcm, rfl⟩ := hr
+      simp [hfalse c hcm]
+    rw [this, hcontent, hg]
+    simp only [expectedSingle, if_true, candsAsRanges, breakMatchesOnNewlines, List.map_map, List.map_flatMap,
+      List.flatMap_map]
+    apply flatMap_congr'
+    intro o ho
+    have hmem : (⟨false, o, pat.length⟩ : Cand) ∈ gatherCands name cands := by
+      rw [hg]; exact List.mem_map.mpr ⟨o, ho, rfl⟩
+    have hin := g.inBounds _ hmem
+    simp only [Bool.false_eq_true, if_false] at hin
+    have := breakOnNewlines_eq_cut data ⟨false, o, pat.length⟩ hin
+    exact this
+
+
+/-- the source constants the `findOffset` theorems depend on, regenerated from the working tree by the translator on
+    every run: `runeOffsetFrequency` is the model's `freq`, and the window `findOffset` reads holds 99 runes of 4 bytes -/
+theorem source_constants_ok :
+    Gen.c02RuneOffsetFrequency = freq ∧ 4 * (freq - 1) ≤ readLen Gen.c02FindOffsetWindowFactor := by decide
+
+/-- `findOffset_exact` for the window size found in the source -/
+theorem findOffset_exact_source (docs : List Bytes) (hclean : ∀ d ∈ docs, Clean d) (idx r : Nat) (hidx : idx < docs.length)
+    (hr : r < runeCount (docs.getD idx [])) :
+    findOffset (Posting.ofDocs docs) false (some (readLen Gen.c02FindOffsetWindowFactor)) idx r =
+      advance r (docs.getD idx []) :=
+  findOffset_exact docs hclean idx r hidx hr _ (by intro n h; cases h; exact source_constants_ok.2)
+
+example := C02_search_chunks [97, 98, 10, 97, 98] [102] 1 [⟨false, 0, 2⟩, ⟨false, 3, 2⟩, ⟨true, 0, 1⟩] (by decide)
+example := C02_search_lines_substring [97, 98, 10, 97, 98] [102] 1 [97, 98] (by decide) [⟨false, 3, 2⟩, ⟨false, 0, 2⟩]
+  (by decide) (by decide)
 
 /-! non-vacuity: candidates of three atoms, one below `not`, with overlaps, a same-offset tie (the longer wins),
     adjacent matches (both kept) and file-name matches (sorted first, never compared with content matches) -/
